@@ -184,7 +184,7 @@ func runC15(c *core.Ctx) {
 					// count (rows carved from a longer [][]T): a reslice of the
 					// argument must not make the call acceptable
 					if m < ch {
-						hidden := make([]int, ch-m+1)
+						hidden := make([]int, ch-m+(ai+bi+m)%2) // capacity of the outer slice: exactly the channel count, or one more
 						for i := range hidden {
 							hidden[i] = 3
 						}
